@@ -17,7 +17,7 @@
    Each token is emitted with (pre, len): the number of ASCII-whitespace bytes skipped before
    it (inside tags) and its own byte length; `spans` turns these into the Span values the Rust
    code computes incrementally with `advance!`. *)
-From TeraV Require Import Model.Value Model.Utf8.
+From TeraV Require Import Model.Value Model.Utf8Lex.
 Local Open Scope N_scope.
 
 (* ---------------------------------------------------------------- delimiters.rs *)
